@@ -160,15 +160,17 @@ C28_ChoiceFirst == Finished => ret = AbstractResult(Comps[c], name)
 
 \* TemplateNotFound exactly when no candidate has the name
 C28_NotFoundIffNone ==
-    Finished => (ret = NF <=> \A k \in 1..Len(Candidates(Comps[c], name)) : ~Has(Candidates(Comps[c], name)[k]))
+    Finished => LET cs == Candidates(Comps[c], name)
+                IN ret = NF <=> \A k \in 1..Len(cs) : ~Has(cs[k])
 
 \* every active call works on the original name minus the prefixes routed so far
 C28_PrefixRouting == \A k \in 1..Len(stack) : stack[k].pre \o stack[k].n = name
 
 \* leaves are consulted in candidate order, and not beyond the first hit
 C28_AskedInOrder ==
-    /\ \E k \in 0..Len(AbstractAsked(Comps[c], name)) : asked = SubSeq(AbstractAsked(Comps[c], name), 1, k)
-    /\ Finished => asked = AbstractAsked(Comps[c], name)
+    LET aa == AbstractAsked(Comps[c], name)
+    IN /\ Len(asked) <= Len(aa) /\ asked = SubSeq(aa, 1, Len(asked))
+       /\ Finished => asked = aa
 
 C28_ComposeTerminates == <>Finished
 =============================================================================
